@@ -12,6 +12,13 @@ Driver module "c10" (serves C10 and C11).
       → ok <obs0>;<obs1>;…   a NEW writer opens the file left behind after the first k effects of the history `ops` and
         runs the continuation `ops2`; observations as for `hist` (obs0 = after the constructor; the spec column starts
         from what the reopened store holds); `ok absent` when there is no file yet
+  c10 gen2 <initSize> <pageSize> <ops> <k> <ops2>
+      → ok <cut0>;<cut1>;…   second generation: a NEW writer opens the file left after the first k effects of `ops`, runs
+        `ops2`; cut j = the file after the first j effects of THAT writer (cut0 = the file it found); columns as for
+        `cuts`, the classification is relative to what the new writer found (p<j> / i<j> over ops2)
+  c10 listed <pageSize> <entries>            entries `;`-separated  <hex typ>:<hex mode>:<x:hex content | v (vanished)>
+      → ok <number of files read> | ok !<Class>      the collector's listing → read loop
+  c10 read2 <pageSize> x:<hex1> x:<hex2>     → the file reader whose first read() sees file 1 and second read() file 2
   c10 readfile <pageSize> x:<hex>           → the file reader on arbitrary bytes
   c10 open <initSize> x:<hex>               → the constructor on arbitrary bytes, then read_all_values()
   c10 padded <n>                            → reader's padded_len, writer's pad count
@@ -101,6 +108,18 @@ def eqStore (a b : Spec.MmapDict.Store) : Bool := a == b
 
 /-- which prefix state (if any) a reader result is: `p<j>` = state after j operations, `i<j>` = that plus the next
 operation's new key at zero -/
+def classifyFrom (s0 : Spec.MmapDict.Store) (ops : List Spec.MmapDict.Op) (r : Spec.MmapDict.Store) : String :=
+  let js := List.range (ops.length + 1)
+  match js.find? (fun j => eqStore r (Spec.MmapDict.run s0 (ops.take j))) with
+  | some j => s!"p{j}"
+  | none =>
+    match js.find? (fun j =>
+      match (ops.drop j).head?.bind Spec.MmapDict.Op.key? with
+      | some k => !(Spec.MmapDict.run s0 (ops.take j)).has k && eqStore r (Spec.MmapDict.run s0 (ops.take j) ++ [(k, 0, 0)])
+      | none => false) with
+    | some j => s!"i{j}"
+    | none => "none"
+
 def classify (ops : List Spec.MmapDict.Op) (r : Spec.MmapDict.Store) : String :=
   let js := List.range (ops.length + 1)
   match js.find? (fun j => eqStore r (Spec.MmapDict.run [] (ops.take j))) with
@@ -125,6 +144,40 @@ def showCut (initSize pageSize : Nat) (sops : List Spec.MmapDict.Op) (eff : Stri
       | .ok (d, _) => s!"ok:{d.used}:{d.capacity}:{d.positions.length}:{showRes (readAllValues d)}"
       | .error e => "!" ++ e.name
     s!"{eff},{showFile f},{showItems rd},{ro},{cls}"
+
+def showCutFrom (initSize pageSize : Nat) (s0 : Spec.MmapDict.Store) (sops : List Spec.MmapDict.Op) (eff : String)
+    (f : Option Bytes) : String :=
+  match f with
+  | none => s!"{eff},absent,-,-,-"
+  | some bytes =>
+    let rd := readAllValuesFromFile pageSize bytes
+    let cls := match rd with
+      | .ok xs => classifyFrom s0 sops (xs.map fun ((k, v, t, _) : Item) => (k, v, t))
+      | .error _ => "-"
+    let ro := match init initSize bytes with
+      | .ok (d, _) => s!"ok:{d.used}:{d.capacity}:{d.positions.length}:{showRes (readAllValues d)}"
+      | .error e => "!" ++ e.name
+    s!"{eff},{showFile f},{showItems rd},{ro},{cls}"
+
+def cutsLoopFrom (initSize pageSize : Nat) (s0 : Spec.MmapDict.Store) (sops : List Spec.MmapDict.Op) :
+    Option Bytes → List Effect → List String → List String
+  | _, [], acc => acc.reverse
+  | f, e :: es, acc =>
+    let f' := applyEffect f e
+    cutsLoopFrom initSize pageSize s0 sops f' es (showCutFrom initSize pageSize s0 sops (showEffect e) f' :: acc)
+
+def decListed (f : String) : Option Listed :=
+  match f.splitOn ":" with
+  | [t, m, "v"] => do
+      let t ← decKey t
+      let m ← decKey m
+      pure ⟨t, m, none⟩
+  | [t, m, "x", h] => do
+      let t ← decKey t
+      let m ← decKey m
+      let b ← hexToBytes h.toList
+      pure ⟨t, m, some b⟩
+  | _ => none
 
 def cutsLoop (initSize pageSize : Nat) (sops : List Spec.MmapDict.Op) : Option Bytes → List Effect → List String → List String
   | _, [], acc => acc.reverse
@@ -166,6 +219,35 @@ def handle : List String → String
           | .error e => "ok !" ++ e.name
       | .error e => "err " ++ e.name
     | _, _, _, _, _ => "err bad-field"
+  | ["gen2", isz, psz, opsF, kF, contF] =>
+    match isz.toNat?, psz.toNat?, decOps opsF, kF.toNat?, decOps contF with
+    | some initSize, some pageSize, some ops, some k, some cont =>
+      match run initSize ops with
+      | .ok ((_, effs) : MmapedDict × List Effect) =>
+        let f := applyEffects none (effs.take k)
+        match genRun initSize f cont with
+        | .ok ((_, effs2) : MmapedDict × List Effect) =>
+          let s0 : Spec.MmapDict.Store := match f with
+            | none => []
+            | some b => match readAllValuesFromFile pageSize b with
+              | .ok xs => xs.map fun ((k, v, t, _) : Item) => (k, v, t)
+              | .error _ => []
+          let sops := cont.map toSpec
+          "ok " ++ ";".intercalate (cutsLoopFrom initSize pageSize s0 sops f effs2 [showCutFrom initSize pageSize s0 sops "-" f])
+        | .error e => "ok !" ++ e.name
+      | .error e => "err " ++ e.name
+    | _, _, _, _, _ => "err bad-field"
+  | ["listed", psz, entries] =>
+    match psz.toNat?, (decList entries).mapM decListed with
+    | some pageSize, some ls =>
+      match readMetricsListed pageSize ls with
+      | .ok r => s!"ok {r.length}"
+      | .error e => "ok !" ++ e.name
+    | _, _ => "err bad-field"
+  | ["read2", psz, x1, x2] =>
+    match psz.toNat?, decBytes x1, decBytes x2 with
+    | some pageSize, some b1, some b2 => "ok " ++ showItems (readAllValuesFromFile2 pageSize b1 b2)
+    | _, _, _ => "err bad-field"
   | ["readfile", psz, x] =>
     match psz.toNat?, decBytes x with
     | some pageSize, some bs => "ok " ++ showItems (readAllValuesFromFile pageSize bs)
